@@ -1644,4 +1644,103 @@ func runNestedKills(p *Program, sp *Spec, c *Collector, nk NestedKillSpec) {
 	if n < nk.Min {
 		c.Anchor(nk.Props, "E6: nested kill: %d self-nesting callbacks found on %s.%s, %d confirmed by hand", n, nk.Pkg, nk.Listener, nk.Min)
 	}
+	// asymmetric brackets: Enter<R> puts a package variable into a special state only for some R (a test on ctx), Exit<R>
+	// takes it back for every R: an R nested inside the one that set the state ends that state early.
+	byName := map[string]*ssa.Function{}
+	for _, fn := range ms {
+		byName[fn.Name()] = fn
+	}
+	var names []string
+	for nme := range byName {
+		names = append(names, nme)
+	}
+	sort.Strings(names)
+	for _, nme := range names {
+		if !strings.HasPrefix(nme, "Enter") {
+			continue
+		}
+		enter, exit := byName[nme], byName["Exit"+strings.TrimPrefix(nme, "Enter")]
+		if exit == nil || len(enter.Blocks) == 0 || len(exit.Blocks) == 0 {
+			continue
+		}
+		_, rule, _ := callbackRule(nme)
+		recursive := false
+		for child := range g.Refs(rule) {
+			if g.ReachableWithout(child, nil, nil)[rule] {
+				recursive = true
+			}
+		}
+		if !recursive {
+			continue
+		}
+		mentionsCtx := func(t *Sym) bool {
+			m := false
+			t.walk(func(x *Sym) {
+				if x.Op == "param" && x.Name == "p1" {
+					m = true
+				}
+			})
+			return m
+		}
+		globalOf := func(target string) string {
+			if !strings.HasPrefix(target, "globalstore:") {
+				return ""
+			}
+			k := strings.TrimPrefix(target, "globalstore:")
+			// "<pkg path>.<var>[.<field>…]": keep package and variable
+			slash := strings.LastIndex(k, "/")
+			rest := k[slash+1:]
+			parts := strings.Split(rest, ".")
+			if len(parts) < 2 {
+				return k
+			}
+			return k[:slash+1] + parts[0] + "." + parts[1]
+		}
+		se, sx := newSymFn(p, enter, 0), newSymFn(p, exit, 0)
+		condSet := map[string]bool{}
+		for _, e := range se.emissions() {
+			if gk := globalOf(e.target); gk != "" && mentionsCtx(e.cond) {
+				condSet[gk] = true
+			}
+		}
+		for _, e := range se.emissions() {
+			if gk := globalOf(e.target); gk != "" && !mentionsCtx(e.cond) {
+				delete(condSet, gk) // also assigned for every R: not a conditional state
+			}
+		}
+		var gks []string
+		for gk := range condSet {
+			gks = append(gks, gk)
+		}
+		sort.Strings(gks)
+		for _, gk := range gks {
+			key := "bracket:" + p.FuncKey(exit) + " " + gk
+			var bad *emission
+			for _, e := range sx.emissions() {
+				e := e
+				if globalOf(e.target) == gk && !mentionsCtx(e.cond) && bad == nil {
+					// a value restored from a package-level stack is a stack discipline: nesting is handled
+					restored := false
+					if e.elem != nil {
+						e.elem.walk(func(x *Sym) {
+							if x.Op == "global" || strings.HasPrefix(x.String(), "global(") {
+								restored = true
+							}
+						})
+					}
+					if !restored {
+						bad = &e
+					}
+				}
+			}
+			switch {
+			case bad == nil:
+				c.Ob(nk.Props, "E6.nested-bracket", key, Discharged, "the Exit callback takes the state back only under a test on its own node, or not at all", p.FuncPos(exit), true)
+			case nestingTested(p, exit):
+				c.Ob(nk.Props, "E6.nested-bracket", key, Discharged, "the Exit callback tells nested from outermost occurrences", p.FuncPos(exit), true)
+			default:
+				c.Ob(nk.Props, "E6.nested-bracket", key, Violated, nk.What+": "+enter.Name()+" puts "+gk[strings.LastIndex(gk, ".")+1:]+" into a special state only for some "+rule+" nodes (a test on ctx), "+exit.Name()+" takes it back for every "+rule+" without such a test, and a "+rule+" can occur inside another: the inner one ends the outer one's state early", bad.pos, false)
+			}
+		}
+	}
 }
